@@ -234,6 +234,40 @@ func runC10(c *Ctx) {
 			}
 			pairsOK := ok && hph != nil && fph.Block() == hph.Block()
 			var got []string
+			// the choice of the region may live in a helper that returns (start, free): one entry per return of the helper
+			if fex, isEx := free.(*ssa.Extract); isEx && !pairsOK {
+				if hc, isCall := fex.Tuple.(*ssa.Call); isCall && isHelperOf(fn, hc.Call.StaticCallee()) {
+					h := hc.Call.StaticCallee()
+					startIdx := -1
+					for _, a := range storesDeep(fn, cHead) {
+						if ex, ok := stripConv(a.Val).(*ssa.Extract); ok && ex.Tuple == fex.Tuple {
+							startIdx = ex.Index
+						}
+					}
+					if startIdx >= 0 && startIdx != fex.Index {
+						pairsOK = true
+						for _, r := range returnsOf(h) {
+							if len(r.Results) <= startIdx || len(r.Results) <= fex.Index {
+								pairsOK = false
+								continue
+							}
+							wrapped, extra := "?", ""
+							for _, l := range guardsOf(r.Block()) {
+								if call, ok := l.Cond.(*ssa.Call); ok && call.Call.StaticCallee() != nil && call.Call.StaticCallee().Name() == "Wrapped" {
+									wrapped = map[bool]string{true: "wrapped", false: "linear"}[l.Pos]
+								}
+							}
+							for _, l := range guardsOf(r.Block()) {
+								if op, x, y, ok := l.cmp(); ok && wrapped == "linear" {
+									extra = " if " + cmpString(op, exprString(x, nil, 0), exprString(y, nil, 0))
+								}
+							}
+							got = append(got, fmt.Sprintf("%s%s: start=%s free=%s", wrapped, extra, exprString(r.Results[startIdx], nil, 0), exprString(r.Results[fex.Index], nil, 0)))
+						}
+						sort.Strings(got)
+					}
+				}
+			} else
 			if pairsOK {
 				for i := range fph.Edges {
 					wrapped := "?"
@@ -269,6 +303,21 @@ func runC10(c *Ctx) {
 			}
 			tbl := storeTable(fn, cursors, names, func(*ssa.BasicBlock) string { return "" })
 			okTbl := len(tbl) == 2 && strings.HasPrefix(tbl[0], " => claimHead = phi[") && strings.Contains(tbl[1], "claimTail = (min(free,n)+phi[")
+			if !okTbl && len(tbl) == 2 {
+				// the same two stores with the start chosen elsewhere (a helper's result): claimHead = start, claimTail = start + size
+				var startV ssa.Value
+				for _, a := range storesDeep(fn, cHead) {
+					startV = stripConv(a.Val)
+				}
+				for _, a := range storesDeep(fn, cTail) {
+					if bo, ok := stripConv(a.Val).(*ssa.BinOp); ok && bo.Op == token.ADD && startV != nil {
+						x, y := stripConv(bo.X), stripConv(bo.Y)
+						if (x == startV && y == sizePhi) || (y == startV && x == sizePhi) {
+							okTbl = true
+						}
+					}
+				}
+			}
 			c.check(good && okTbl, fn, "claim slice", fn.Pos(), "returns data[claimHead:claimTail] with claimTail = claimHead + size", "Claim does not return data[claimHead:claimHead+size] / record the claim: Commit later extends the wrong region")
 		}
 	}
